@@ -437,6 +437,11 @@ class Sym:
 
     # ------------------------------------------------------------------ comparisons
     def _cmp(s, o, op):
+        if isinstance(o, (float, _np.floating)) and (o == float('inf') or o == float('-inf')):
+            pos = o > 0          # a symbolic value is a finite real
+            return {'<': pos, '<=': pos, '>': not pos, '>=': not pos, '==': False, '!=': True}[op]
+        if isinstance(o, (float, _np.floating)) and o != o:
+            return op == '!='
         o = Sym.lift(o)
         if o is None:
             return NotImplemented
